@@ -1,6 +1,7 @@
 """Configuration of ./check C12 (see pylib/props.py)."""
 CFG = dict(
-        coq=["props/C12.vo"],
+        coq=["props/C12.vo", "props/Compose3.vo"],
+        compose=['Compose_refsql_prune'],
         tie=["gen/Tie_C12.vo", "gen/Tie_Code_ChildrenFirst.vo"],
         model_vo=["model/PruneRepo.vo", "model/Prune.vo"],
         extract="Ex_C12",
